@@ -180,6 +180,15 @@ class RespRun:
             await task
             self.infos.append(info)
             self.model.register(d)
+        self.peer_listener = None
+        if self.sc.get('peer'):
+            from zeroconf.asyncio import AsyncServiceBrowser
+
+            peer = w.add_host('P', socks=[('v4', '10.0.0.50')] if host.sock_spec[0][0] == 'v4' else [('v6', 'fe80::50')])
+            await peer.zc.async_wait_for_start()
+            self.peer_listener = sim.RecListener(w, 'peer')
+            types = sorted({d['type'] for d in self.sc['services']})
+            self.peer_browser = AsyncServiceBrowser(peer.zc, types if len(types) > 1 else types[0], listener=self.peer_listener)
         await asyncio.sleep(self.sc.get('settle_ms', 2000) / 1000.0)
         self.t_settled_ms = w.now_ms
         self.n_trace_settled = len(w.net.trace)
